@@ -4,11 +4,11 @@ go 1.22.0
 
 require (
 	git.defalsify.org/vise.git v0.0.0
+	github.com/alecthomas/participle/v2 v2.0.0
 	github.com/jackc/pgx/v5 v5.7.0
 )
 
 require (
-	github.com/alecthomas/participle/v2 v2.0.0 // indirect
 	github.com/barbashov/iso639-3 v0.0.0-20211020172741-1f4ffb2d8d1c // indirect
 	github.com/fxamacker/cbor/v2 v2.4.0 // indirect
 	github.com/jackc/pgpassfile v1.0.0 // indirect
